@@ -532,6 +532,22 @@ def mon_rename(seq, ctx):
     return []
 
 
+def mon_source(seq, ctx):
+    """the string masks are matched against (User.source, and the connection's own copy) is the user's CURRENT
+    nick!user@host: its nick part equals the key the user is registered under, and both copies agree"""
+    for op in seq.ops:
+        st = parse_state(op)
+        for nick, u in st.users.items():
+            if not u["src"].startswith(nick + "!"):
+                return [fail("source", "stale-user-source", op, nick=nick, source=u["src"])]
+        for c, cn in st.conns.items():
+            if cn["auth"] and cn["nick"] is not None and cn["nick"] in st.users and not cn["quit"]:
+                if cn["src"] != st.users[cn["nick"]]["src"]:
+                    return [fail("source", "connection-and-user-source-differ", op, conn=c,
+                                 conn_source=cn["src"], user_source=st.users[cn["nick"]]["src"])]
+    return []
+
+
 def mon_reparse(seq, ctx):
     for op in seq.ops:
         for d, lines in op.outs.items():
@@ -568,14 +584,14 @@ MON = {
     "nopanic": mon_nopanic, "ownership": mon_ownership, "gate": mon_gate, "membership": mon_membership,
     "cleanup": mon_cleanup, "counters": mon_counters, "audience": mon_audience,
     "notice_silent": mon_notice_silent, "opergrant": mon_opergrant, "hidden": mon_hidden,
-    "chanlife": mon_chanlife, "admission": mon_admission, "rename": mon_rename, "reparse": mon_reparse,
+    "chanlife": mon_chanlife, "admission": mon_admission, "rename": mon_rename, "reparse": mon_reparse, "source": mon_source,
 }
 
 BY_PROP = {
-    "C01": ["audience"], "C02": ["ownership"], "C03": ["gate"], "C04": ["membership"],
+    "C01": ["audience"], "C02": ["ownership", "source"], "C03": ["gate"], "C04": ["membership"],
     "C05": ["nopanic"], "C06": ["cleanup", "membership"], "C07": ["admission"], "C08": ["membership"],
     "C09": ["membership"], "C10": ["notice_silent"], "C11": ["opergrant"], "C12": ["hidden"],
-    "C13": ["reparse", "nopanic"], "C14": [], "C15": ["rename", "membership"], "C16": ["chanlife", "membership"], "C17": [], "C18": ["nopanic"],
+    "C13": ["reparse", "nopanic"], "C14": ["source"], "C15": ["rename", "membership", "source"], "C16": ["chanlife", "membership"], "C17": [], "C18": ["nopanic"],
     "C19": ["counters"], "C20": [],
 }
 
